@@ -229,6 +229,12 @@ def make_input(pym, shape, kind, k, cplx, zeros, tag):
     if kind == 'plain':
         s = pym.Signal(tag, v.copy())
         return s, s
+    if kind == 'strided':
+        # same values, other memory layout: Fortran order for matrices, a negative-stride view for vectors
+        arr = np.asfortranarray(v.copy()) if len(shape) > 1 else np.ascontiguousarray(v[::-1])[::-1]
+        assert np.array_equal(arr, v) and (len(shape) == 1 or not arr.flags['C_CONTIGUOUS'])
+        s = pym.Signal(tag, arr)
+        return s, s
     n = shape[0]
     big_shape = (2 * n - 1,) + tuple(shape[1:])
     big = np.full(big_shape, 9.25, dtype=v.dtype)
@@ -339,6 +345,16 @@ def execute(case):
             use_df.append(df if shape else (complex(df) if np.iscomplexobj(df) else float(df)))
     before_states = [snapshot(b.state) for _, b in w['ins']] + [snapshot(s.state) for s in fd_ins]
     x_in = [np.array(s.state, copy=True) for s in fd_ins]
+    # entries are reported one after the other without an index: they are matched in numpy's iteration order over the
+    # state as the signal holds it (memory order), and each report's x0 must be the value of that entry
+    orders = []
+    for s_ in fd_ins:
+        st_ = s_.state
+        if isinstance(st_, np.ndarray) and st_.ndim:
+            it_ = np.nditer(st_, flags=['multi_index'])
+            orders.append([it_.multi_index for _ in it_])
+        else:
+            orders.append([()])
     for m in w['mods']:
         m.seeds.clear()
     calls = []
@@ -397,9 +413,7 @@ def execute(case):
     # --- expected call list
     exp = []
     for i, x in enumerate(x_in):
-        it = np.nditer(x, flags=['multi_index'])
-        for _ in it:
-            idx = it.multi_index
+        for idx in orders[i]:
             x0 = x[idx] if x.ndim else x[()]
             if x0 == 0 and opts['keep_zero']:
                 continue
@@ -423,7 +437,10 @@ def execute(case):
     mism = 0
     visible_wrong = 0
     for (i, idx, part, x0, sf), (cx0, cdx, an, fd) in zip(exp, calls):
-        nchk += 2
+        nchk += 3
+        if not (np.asarray(cx0).shape == () and complex(cx0) == complex(x0)):
+            viol('reported_x0_is_not_the_value_of_the_entry', {'entry': [i, list(idx), part], 'got': cx0, 'want': x0})
+            break
         g = own[i]
         gk = 0.0 if g is None else (g[idx] if g.ndim else g[()])
         want_an = float(np.real(gk)) if part == 're' else float(np.imag(gk))
@@ -481,14 +498,14 @@ def option_grid(tier):
 
 def descriptors(tier):
     for prog, (cls, fn, shapes, wrongs, cplx_ok) in PROGS.items():
-        kinds = ['plain'] if shapes[0] == () else ['plain', 'basic_slice', 'fancy_slice']
+        kinds = ['plain'] if shapes[0] == () else ['plain', 'basic_slice', 'fancy_slice', 'strided']
         for kind in kinds:
             for cplx in ((True,) if cplx_ok == 'only' else ((False, True) if cplx_ok else (False,))):
                 for zeros in ((False,) if shapes[0] == () else (False, True)):
                     for wrong in [None] + wrongs:
                         yield dict(prog=prog, input=kind, cplx=cplx, zeros=zeros, wrong=wrong)
     for prog in NETS:
-        for kind in ('plain', 'basic_slice', 'fancy_slice'):
+        for kind in ('plain', 'basic_slice', 'fancy_slice', 'strided'):
             if prog.endswith(('mid', 'mid_to_mid2')) and kind != 'plain':
                 continue
             for cplx in (False, True):
